@@ -46,6 +46,11 @@ def cls_info(tok):
     return _cls_cache[tok]
 
 
+def class_tokens(toks):
+    """Tokens that can stand in class position: the first one and whatever follows a '-' separator (a '-' is never consumed as a value)."""
+    return {t for i, t in enumerate(toks) if i == 0 or toks[i - 1] == '-'}
+
+
 def canon_val(v):
     if v is None or isinstance(v, (str, bool)): return v
     if isinstance(v, int): return v
@@ -375,7 +380,7 @@ def run(ctx):
     model = None
     if ctx.driver:
         reqs = [{'op': 'c12.parse', 'args': c['toks'], 'ipc': bool(c['ipc']), 'order': _order,
-                 'classes': {t: {k: v for k, v in cls_info(t).items() if k in ('name', 'canOut', 'err')} for t in set(c['toks'])}} for c in cases]
+                 'classes': {t: {k: v for k, v in cls_info(t).items() if k in ('name', 'canOut', 'err')} for t in class_tokens(c['toks'])}} for c in cases]
         model = ctx.driver.batch(reqs)
     kinds, errs, skipped, resolved_total = Counter(), Counter(), 0, 0
     nfilters = Counter()
@@ -395,7 +400,7 @@ def run(ctx):
             res.violations.append(Violation(key, what + ' | openfilter run ' + ('--ipc ' if c['ipc'] else '') + '- ' + ' '.join(c['toks']), {k: v for k, v in c.items() if k != '_notes'}))
         if model is not None:
             m = model[i]
-            if m.get('err') == 'unmodelled' or any(cls_info(t).get('notfilter') for t in set(c['toks'])): skipped += 1; continue
+            if m.get('err') == 'unmodelled' or any(cls_info(t).get('notfilter') for t in class_tokens(c['toks'])): skipped += 1; continue
             mm = canon_model(m, c) if ('ok' in m or m.get('err') in ('ValueError', 'TypeError') or 'err' in m) else m
             if mm != o:
                 res.disagreements.append({'point': 'c12.parse', 'case': {k: v for k, v in c.items() if k != '_notes'}, 'impl': o, 'model': mm})
